@@ -135,32 +135,64 @@ def rule_B1(ctx: Ctx) -> None:
         return
     lp = loops[0]
     dimv = lp.target.id
-    cleared = {}
-    raises_else = False
-    for n in ast.walk(lp):
-        if isinstance(n, ast.If):
-            a = N.boolean_nf(n.test)
-            if isinstance(a, N.Atom) and a.op == "==" and a.diff is not None and set(k for k in a.diff if k != 1) == {dimv}:
-                k = int(-a.diff.get(1, 0) / a.diff[dimv])
-                for s in n.body:
-                    if isinstance(s, ast.Assign) and isinstance(s.targets[0], ast.Subscript) and X.U(s.targets[0].value) == arr:
-                        parts = N.subscript_parts(s.targets[0])
-                        forms = [N.slice_form(p, {dimv: N.affine(ast.Constant(k))}) for p in parts]
-                        cleared[k] = (forms, X.U(s))
-                        val_false = isinstance(s.value, ast.Constant) and s.value.value is False
-                        if not val_false:
-                            cleared[k] = (None, X.U(s))
-            if n.orelse and any(isinstance(s, ast.Raise) for s in n.orelse):
-                raises_else = True
+    # path-sensitive walk of the loop body for each concrete layer index (finite domain {0, 1, 2, 3}): stores and raises per layer
+    from sa.fold import Evaluator, Unknown
+
+    ev = Evaluator()
+
+    class _Leave(Exception):
+        pass
+
+    def walk(body, k, events):
+        for st_ in body:
+            if isinstance(st_, ast.Expr) and isinstance(st_.value, ast.Constant):
+                continue
+            if isinstance(st_, ast.Pass):
+                continue
+            if isinstance(st_, ast.If):
+                try:
+                    t_ = bool(ev.ev(st_.test, {dimv: k}))
+                except Unknown:
+                    events.append(("unknown", X.U(st_.test)))
+                    raise _Leave()
+                walk(st_.body if t_ else st_.orelse, k, events)
+                continue
+            if isinstance(st_, ast.Assign) and isinstance(st_.targets[0], ast.Subscript) and X.U(st_.targets[0].value) == arr:
+                parts = N.subscript_parts(st_.targets[0])
+                forms = [N.slice_form(p, {dimv: N.affine(ast.Constant(k))}) for p in parts]
+                val_false = isinstance(st_.value, ast.Constant) and st_.value.value is False
+                events.append(("store", forms if val_false else None, X.U(st_)))
+                continue
+            if isinstance(st_, ast.Raise):
+                events.append(("raise", X.U(st_.exc)[:40] if st_.exc is not None else ""))
+                raise _Leave()
+            if isinstance(st_, (ast.Continue, ast.Break)):
+                events.append(("leave", type(st_).__name__))
+                raise _Leave()
+            events.append(("unknown", X.U(st_)[:60]))
+            raise _Leave()
+
+    per_dim = {}
+    for k in (0, 1, 2, 3):
+        evs: list = []
+        try:
+            walk(lp.body, k, evs)
+        except _Leave:
+            pass
+        per_dim[k] = evs
     full = ("slice", None, None, None)
     minus1 = ("idx", N.aff_key(N.affine(ast.Constant(-1))))
     want = {0: [("idx", N.aff_key(N.affine(ast.Constant(0)))), minus1, full],
             1: [("idx", N.aff_key(N.affine(ast.Constant(1)))), full, minus1]}
     for k in (0, 1):
-        got = cleared.get(k)
-        ok = got is not None and got[0] == want[k]
-        ctx.judge(fill, ok, {"dim": k, "store": got[1] if got else None}, exp,
+        evs = per_dim[k]
+        stores = [e for e in evs if e[0] == "store"]
+        unknown = [e for e in evs if e[0] == "unknown"]
+        bad_leave = any(e[0] == "raise" or e == ("leave", "Break") for e in evs)
+        ok = None if unknown else (len(stores) == 1 and stores[0][1] == want[k] and not bad_leave)
+        ctx.judge(fill, ok, {"dim": k, "store": stores[0][2] if stores else None, "events": [e[0] for e in evs]}, exp,
                   "the wrong boundary is cleared: edges leaving the grid survive (and legitimate edges are deleted)")
+    raises_else = all(any(e[0] == "raise" for e in per_dim[k]) and not any(e[0] in ("store", "unknown") for e in per_dim[k]) for k in (2, 3))
     rng_ok = isinstance(lp.iter, ast.Call) and dotted_of(lp.iter.func) == "range" and len(lp.iter.args) == 1 and X.U(lp.iter.args[0]) == X.CT(f"{arr}.shape[0]")
     rets = X.returns_of(fill.node)
     ret_ok = len(rets) == 1 and X.U(rets[0].value) == arr and rets[0] in fill.node.body and fill.node.body.index(rets[0]) > fill.node.body.index(lp)
